@@ -294,6 +294,10 @@ def run(ctx):
     replay_known(ctx)
     docs = ref_docs(ctx, 1500 if ctx.quick() else 15000)
     n1 = correspondence(ctx, docs)
+    # the refinement theorems (C12Refine*) are about the concrete Lean parser model: token trees AND the final reference table (block kind compares env) on this run's documents
+    common.model_tie(ctx, docs, "core", "block", limit=(600 if ctx.quick() else 6000))
+    common.model_tie(ctx, docs, "core", "doc", limit=(600 if ctx.quick() else 6000))
+    common.model_tie(ctx, docs[::2], "all", "doc", limit=(300 if ctx.quick() else 3000))
     n2 = metamorphic(ctx, 250 if ctx.quick() else 3000)
     n2 += include_part(ctx)
     if ctx.broken and not ctx.failures:
